@@ -122,6 +122,7 @@ def load_case(ctx: Ctx):
     ctrl = case.get("controller") or {"stack": ["Dispatcher", "ChargingFleetManager"]}
     gens = C.build_generators(ctrl, rp.e, case.get("case_seed", 0))
     ctx.pending = next((g for g in gens if isinstance(g, C.Pending)), None)
+    ctx.gen_names = [g.name for g in gens]  # the configured order
     if ctx.opts.get("record_generators", True):
         gens = tuple(C.Recorder(g, ctx.gen_log) for g in gens)
     rp = set_instruction_generators(rp, gens)
@@ -148,6 +149,22 @@ def cosim_ops(ctx: Ctx, rp, k: int):
         return rp
     r = C._rng(ctx.case.get("case_seed", 0), "cosim", k)
     kind = r.choice(o.get("kinds", ["scale_rate"]))
+    if kind == "change_membership":
+        # the operator moves a vehicle to another fleet (Vehicle.set_membership + modify_entities); private home-base
+        # memberships are kept
+        fids = sorted(f for f in rp.e.fleet_ids if f is not None)
+        vids = rp.s.get_vehicle_ids()
+        if not fids or not vids:
+            return rp
+        v = rp.s.vehicles[r.choice(vids)]
+        keep = tuple(sorted(m for m in v.membership.memberships if "_private_" in m))
+        res = modify_entities_safe(rp, [v.set_membership(keep + (r.choice(fids),))])
+        if isinstance(res, Failure):
+            return rp
+        ctx.count("cosim_change_membership")
+        if hasattr(v.vehicle_state, "route") or type(v.vehicle_state).__name__ in ("ChargeQueueing", "ChargingStation", "ChargingBase", "ReserveBase"):
+            ctx.count("cosim_change_membership_while_engaged")
+        return res.unwrap()
     sids = rp.s.get_station_ids()
     if not sids:
         return rp
